@@ -207,6 +207,10 @@ impl<'m> Interp<'m> {
             None => match (self.layer(ty), v) {
                 // (S)x : every scalar inside the struct receives the converted scalar
                 (ir::TypeLayer::Struct(_), x) if x.is_scalar() => self.fill(ty, x),
+                // a struct converted to its base keeps the leading members (members of a base come first)
+                (ir::TypeLayer::Struct(id), V::Struct(fields)) if fields.len() > self.m.struct_registry[id.0 as usize].members.len() => {
+                    Ok(V::Struct(fields[..self.m.struct_registry[id.0 as usize].members.len()].to_vec()))
+                }
                 (ir::TypeLayer::Struct(_), V::Struct(_)) | (ir::TypeLayer::Array(..), V::Array(_)) => Ok(v.clone()),
                 (l, x) => unsupported(format!("cast of {} to {:?}", show(x), l)),
             },
